@@ -1,8 +1,94 @@
-/- line-protocol engine `perm` (stub: answers bad-op until the engine is built) -/
+/- line-protocol engine `perm` (C11): runs the effect-trace model over the generated site table.
+
+  perm table                       -> `idx|file|name|guarded;…`  (the generated effect-site table)
+  perm perms                       -> `CONST|id|default;…`
+  perm run <cfg> <fuel> <expr…>    -> `<res> w=<n> c=<n> r=<n> x=<n> s=<n>`
+     cfg  : one char per generated permission constant, in table order: `1` allow, `0` forbid, `-` not configured
+     expr : prefix tokens  L | B | N <site> <n> e1…en | S a b | W <n> e1…en body | T <calls> body
+-/
+import XrayModel.Perm
+import Generated.Permissions
+open XrayModel.Perm
 namespace XrayDriver
+
+/-- parse one expression from a token list (fuel = number of tokens) -/
+def parseExpr : Nat → List String → Option (Expr × List String)
+  | 0, _ => none
+  | fuel + 1, toks =>
+    let rec many (k : Nat) (ts : List String) (acc : List Expr) : Option (List Expr × List String) :=
+      match k with
+      | 0 => some (acc.reverse, ts)
+      | k + 1 =>
+        match parseExpr fuel ts with
+        | some (e, ts') => many k ts' (e :: acc)
+        | none => none
+    match toks with
+    | "L" :: r => some (.lit, r)
+    | "B" :: r => some (.bad, r)
+    | "N" :: s :: n :: r =>
+      match s.toNat?, n.toNat? with
+      | some s, some n =>
+        match many n r [] with
+        | some (as, r') => some (.nat s as, r')
+        | none => none
+      | _, _ => none
+    | "S" :: r =>
+      match parseExpr fuel r with
+      | some (a, r1) =>
+        match parseExpr fuel r1 with
+        | some (b, r2) => some (.seq a b, r2)
+        | none => none
+      | none => none
+    | "W" :: n :: r =>
+      match n.toNat? with
+      | some n =>
+        match many n r [] with
+        | some (as, r1) =>
+          match parseExpr fuel r1 with
+          | some (b, r2) => some (.wrap as b, r2)
+          | none => none
+        | none => none
+      | none => none
+    | "T" :: n :: r =>
+      match n.toNat? with
+      | some n =>
+        match parseExpr fuel r with
+        | some (b, r1) => some (.thunk b n, r1)
+        | none => none
+      | none => none
+    | _ => none
+
+def cfgOf (cfg : String) : Option PermissionSet :=
+  let cs := cfg.toList
+  let ps := Generated.Permissions.permissions
+  if cs.length != ps.length then none else
+  (cs.zip ps).foldlM (fun (acc : PermissionSet) (cp : Char × String × Permission) =>
+    match cp.1 with
+    | '1' => some (acc.allow cp.2.2)
+    | '0' => some (acc.forbid cp.2.2)
+    | '-' => some acc
+    | _ => none) []
+
+def showRes : Res → String
+  | .val => "val"
+  | .err => "err"
+  | .viol id => "viol:" ++ id
+  | .stuck => "stuck"
 
 def permEngine (f : String) (args : List String) : String :=
   match f, args with
+  | "table", [] =>
+    let rows := Generated.Permissions.sites.zipIdx.map (fun (s, i) =>
+      s!"{i}|{s.file}|{s.name}|{siteGuarded s}")
+    String.intercalate ";" rows
+  | "perms", [] =>
+    String.intercalate ";" (Generated.Permissions.permissions.map (fun (c, p) => s!"{c}|{p.id}|{p.default}"))
+  | "run", cfg :: fuel :: toks =>
+    match cfgOf cfg, fuel.toNat?, parseExpr (toks.length + 1) toks with
+    | some P, some fuel, some (e, []) =>
+      let (r, l) := eval Generated.Permissions.sites P fuel e []
+      s!"{showRes r} w={countKind .writer l} c={countKind .clock l} r={countKind .rng l} x={countKind .regex l} s={countKind .sleep l}"
+    | _, _, _ => "bad-op"
   | _, _ => "bad-op"
 
 end XrayDriver
